@@ -937,6 +937,9 @@ type rangeIter struct {
 	// ones are skipped; posT is the (symbolic) index of the next candidate
 	pres []*Term
 	posT *Term
+	// all keys concrete, some entries conditional: entries are visited in sorted key order,
+	// each under its presence condition (the block executor skips the body otherwise)
+	skip bool
 }
 
 func (e *Exec) rangeInit(st *State, x *ssa.Range, where string) {
@@ -952,7 +955,30 @@ func (e *Exec) rangeInit(st *State, x *ssa.Range, where string) {
 					symbolic = true
 				}
 			}
-			if symbolic {
+			allConc := true
+			for _, k := range md.Keys {
+				if _, conc := e.keyConc(k); !conc {
+					allConc = false
+				}
+			}
+			if symbolic && allConc {
+				it.skip = true
+				for _, i := range sortMapKeys(md, e) {
+					if e.pres(md, i).IsFalse() {
+						continue
+					}
+					it.keys = append(it.keys, md.Keys[i])
+					it.vals = append(it.vals, md.Vals[i])
+					it.pres = append(it.pres, e.pres(md, i))
+				}
+				if e.MapReverse {
+					for a, b := 0, len(it.keys)-1; a < b; a, b = a+1, b-1 {
+						it.keys[a], it.keys[b] = it.keys[b], it.keys[a]
+						it.vals[a], it.vals[b] = it.vals[b], it.vals[a]
+						it.pres[a], it.pres[b] = it.pres[b], it.pres[a]
+					}
+				}
+			} else if symbolic {
 				for i := range md.Keys {
 					if e.pres(md, i).IsFalse() {
 						continue
@@ -966,6 +992,12 @@ func (e *Exec) rangeInit(st *State, x *ssa.Range, where string) {
 				for _, i := range sortMapKeys(md, e) {
 					it.keys = append(it.keys, md.Keys[i])
 					it.vals = append(it.vals, md.Vals[i])
+				}
+				if e.MapReverse {
+					for a, b := 0, len(it.keys)-1; a < b; a, b = a+1, b-1 {
+						it.keys[a], it.keys[b] = it.keys[b], it.keys[a]
+						it.vals[a], it.vals[b] = it.vals[b], it.vals[a]
+					}
 				}
 			}
 		}
@@ -1005,6 +1037,15 @@ func (e *Exec) rangeNext(st *State, x *ssa.Next, where string) {
 	tt := x.Type().(*types.Tuple)
 	if it.pos >= len(it.keys) {
 		st.Regs[x] = TupleV{e.S.False, e.zeroVal(tt.At(1).Type()), e.zeroVal(tt.At(2).Type())}
+		return
+	}
+	if it.skip {
+		k, v := it.keys[it.pos], it.vals[it.pos]
+		if !it.pres[it.pos].IsTrue() {
+			st.skipUnless = it.pres[it.pos]
+		}
+		st.Mem[p.Obj] = &rangeIter{keys: it.keys, vals: it.vals, pres: it.pres, pos: it.pos + 1, skip: true}
+		st.Regs[x] = TupleV{e.S.True, k, v}
 		return
 	}
 	if it.posT != nil {
